@@ -152,7 +152,8 @@ def run(ctx: Ctx) -> int:
 	for i in range(0, len(annos), step):
 		chunk = annos[i:i + step]
 		params = ', '.join(f'p{j}: {a}' for j, a in enumerate(chunk))
-		body = ''.join(f'\tv{j} = p{j}\n' for j in range(len(chunk)))
+		# w_j holds ONE value twice: the attribute tree of its type reaches the same reflection by two paths
+		body = ''.join(f'\tv{j} = p{j}\n\tw{j} = (p{j}, p{j})\n' for j in range(len(chunk)))
 		fields = ''.join(f'\tf{j}: {a}\n' for j, a in enumerate(chunk[:4]))
 		user = f'from vm_lib import K, Q, mk, table, names, opt, pair, nested\n\nt2 = table\nn2 = names\n\nclass Holder:\n{fields}\tk: K\n\tdef __init__(self, k: K) -> None:\n\t\tself.k = k\n\n\tdef get(self) -> list[K]:\n\t\treturn [self.k, mk(1)]\n\ndef f({params}) -> dict[str, list[K]]:\n{body}\th = Holder(Q(1))\n\tks = h.get()\n\treturn {{\'a\': ks}}\n\ng = mk(2)\n'
 		jobs.append((f'shapes:{i}', {'vm_lib': lib, 'vm_user': user}, 'vm_user'))
